@@ -9,7 +9,7 @@ White-box (secondary): scanner span conservation, parser cursor/token conservati
 import collections
 import random
 
-from fmon import core
+from fmon import core, attach
 from fmon.ref import grammar as G
 from fmon.ref import algebra as A
 from workloads import sentences as S
@@ -286,6 +286,18 @@ def judge(text, m, rng, shadows=True, origin="enum"):
     except RecursionError:
         m.note("reference-recursion-limit")
         return
+    # history: the library has just seen the same characters without the inter-token whitespace (a
+    # different string: 'a b' -> 'ab', '* *' -> '**') and without parentheses; neither may influence
+    # how THIS string is read
+    for primer in ("".join(text.split()), text.replace("(", " ").replace(")", " ")):
+        if primer != text and primer.strip():
+            try:
+                with core.shadow():
+                    attach.ORIG["model_description"](primer)
+            except Exception:
+                pass
+            except RecursionError:
+                pass
     if ref_ok and A.expansion_bound(ref_ast) > 400:
         # the term algebra is exponential in the nesting of * and **: the grammar clauses are judged
         # at parser level only for such sentences
